@@ -43,12 +43,14 @@ begin
 
   proc: process(clk)
     variable temp : boolean;
-    variable temp1 : unsigned(2 downto 0);
+    variable temp1 : boolean;
     variable temp2 : unsigned(2 downto 0);
+    variable temp3 : unsigned(2 downto 0);
   begin
     if rising_edge(clk) then
       temp := reset = '1';
-      if temp then
+      temp1 := not (temp);
+      if temp1 then
         s_proc <= state_0;
         cnt <= unsigned'("011");
         buffer_resetable_bit <= '0';
@@ -57,15 +59,15 @@ begin
         case s_proc is
           when state_0 =>
             s_proc <= state_1;
-            temp1 := (cnt) + (1);
-            cnt <= temp1;
+            temp2 := (cnt) + (1);
+            cnt <= temp2;
           when state_1 =>
             if step = '1' then
               s_proc <= state_2;
               buffer_out_bit <= cnt(1);
               buffer_resetable_bit <= cnt(1);
-              temp2 := (cnt) + (1);
-              cnt <= temp2;
+              temp3 := (cnt) + (1);
+              cnt <= temp3;
             end if;
           when state_2 =>
             if step = '1' then
